@@ -34,7 +34,7 @@ def theorem_names(path, namespace_hint=None):
         m = re.match(r'\s*end\s+([\w.]+)\s*$', line)
         if m and ns and ns[-1].split('.')[-1] == m.group(1).split('.')[-1]:
             ns.pop(); continue
-        m = re.match(r'\s*(?:@\[[^\]]*\]\s*)?(?:private\s+|protected\s+)?theorem\s+([\w.\']+)', line)
+        m = re.match(r'\s*(?:@\[[^\]]*\]\s*)?(?:private\s+|protected\s+)?theorem\s+([\w.\'?!]+)', line)
         if m:
             names.append(".".join(ns + [m.group(1)]))
     return names
@@ -80,7 +80,7 @@ def theorem_at(file_rel, line_no):
     except OSError:
         return None
     for i in range(min(line_no, len(lines)) - 1, -1, -1):
-        m = re.match(r'\s*(?:private\s+)?theorem\s+([\w.\']+)', lines[i])
+        m = re.match(r'\s*(?:private\s+)?theorem\s+([\w.\'?!]+)', lines[i])
         if m:
             return m.group(1)
     return None
